@@ -11,7 +11,7 @@ def _classify_crash(cr):
 
 SPEC = {
     'id': 'C08',
-    'lean_modules': ['AITB.Props.C08Dense', 'AITB.Props.C08Project', 'AITB.Props.C08Vose', 'AITB.Props.C08', 'AITB.Props.C08Measure'],
+    'lean_modules': ['AITB.Props.C08Dense', 'AITB.Props.C08Project', 'AITB.Props.C08Vose', 'AITB.Props.C08', 'AITB.Props.C08Measure', 'AITB.Props.C08Round'],
     'theorems': [_D + t for t in [
         # dense inverse-CDF scan (sampleProbability, dense template)
         'dense_in_range', 'dense_preimage', 'dense_interval_length', 'dense_preimage_sum_one',
@@ -49,6 +49,8 @@ SPEC = {
         'dense_cert', 'dense_selects_exact', 'dense_selects_valid', 'dense_selects_out_of_range', 'alias_cert', 'vose_selects',
         'sparseFixed_selects', 'sparseFixed_selects_valid', 'selects_unique', 'selects_prob_unique',
         'sampleSR_selects', 'sampleSR_reward', 'sampleSOR_obs_selects', 'sampleSOR_state', 'not_selects_current_vose', 'selects_current_vose_half',
+        # robustness against rounding of the subtraction (|sub a b - (a-b)| <= eps): breakpoints move by <= k*eps; agreement away from breakpoints
+        'denseA_round_bounds', 'denseA_round_agrees', 'spacingsA_round', 'makeRandomProbabilityA_round',
     ]],
     'harness': 'harness/c08.cpp',
     'classify_crash': _classify_crash,
